@@ -16,11 +16,11 @@ Proof. vm_compute. repeat split; reflexivity. Qed.
        the parsed body is well-typed Rust (i64/bool typing, break/continue only in loops, assignment
        only to `let mut`).  Known_C02 = breaks a documented static rule the checker does not enforce,
        or is in an emission class of C01, or holds a constant overflow. *)
-Theorem C02_accepted_builds : forall c,
-  check_fn c = true -> ~ Known_C02 c ->
+Theorem C02_accepted_builds : forall ev c,
+  check_fn_gen ev c = true -> ~ Known_C02 c ->
   exists ts b, compile c = COk ts b /\ rtype_fn (params c) b = true.
 Proof.
-  intros c _ HK.
+  intros ev c _ HK.
   assert (Hs : static_fn c = None).
   { destruct (static_fn c) eqn:E; [|reflexivity]. exfalso. apply HK. left. congruence. }
   assert (Hg : known_grouping c = false).
@@ -45,6 +45,11 @@ Print Assumptions C02_static_builds.
        with the first documented rule it breaks *)
 Theorem C02_accepted_builds_refuted :
   forallb (fun w => let '(c, k, v) := w in
-             check_fn c && (static_code c =? k) && (build_model c =? v) && negb (v =? 0)) witnesses = true.
-Proof. vm_compute. reflexivity. Qed.
+             check_fn c && (static_code c =? k) && (build_model c =? v) && negb (v =? 0)) witnesses = true /\
+  (* with elif branches visited (the pending checker fix) all witnesses but the elif one remain *)
+  forallb (fun w => let '(c, k, v) := w in
+             check_fn_elif c && (static_code c =? k) && (build_model c =? v) && negb (v =? 0))
+          (filter (fun w => negb (only_in_elif (fst (fst w)))) witnesses) = true /\
+  check_fn_elif w_elif = false.
+Proof. vm_compute. repeat split; reflexivity. Qed.
 Print Assumptions C02_accepted_builds_refuted.
